@@ -3464,6 +3464,64 @@ static void ResetSymbolDefines_ResetNode(PTree Node, void* pData) {
     SymbolEntry->Used    = False;
 }
 
+#ifdef FLAMEWING_ASL_RELEASES_VERIF
+/* verification hook (guarded, add-only): order-dependent 64 bit FNV-1a digest over both
+   symbol tables (name, section, type, value); DATE/TIME/MOMPASS are skipped */
+
+static void VerifDigest_Bytes(LargeWord* pHash, void const* pData, size_t Len) {
+    unsigned char const* p = (unsigned char const*)pData;
+
+    while (Len--) {
+        *pHash ^= *p++;
+        *pHash *= (LargeWord)1099511628211ull;
+    }
+}
+
+static void VerifDigest_Node(PTree Node, void* pData) {
+    PSymbolEntry SymbolEntry = (PSymbolEntry)Node;
+    LargeWord*   pHash       = (LargeWord*)pData;
+
+    if (!strcmp(Node->Name, "DATE") || !strcmp(Node->Name, "TIME")
+        || !strcmp(Node->Name, "MOMPASS")) {
+        return;
+    }
+    VerifDigest_Bytes(pHash, Node->Name, strlen(Node->Name) + 1);
+    VerifDigest_Bytes(pHash, &Node->Attribute, sizeof(Node->Attribute));
+    VerifDigest_Bytes(pHash, &SymbolEntry->SymWert.Typ, sizeof(SymbolEntry->SymWert.Typ));
+    switch (SymbolEntry->SymWert.Typ) {
+    case TempInt:
+        VerifDigest_Bytes(
+                pHash, &SymbolEntry->SymWert.Contents.Int,
+                sizeof(SymbolEntry->SymWert.Contents.Int));
+        break;
+    case TempFloat:
+        VerifDigest_Bytes(
+                pHash, &SymbolEntry->SymWert.Contents.Float,
+                sizeof(SymbolEntry->SymWert.Contents.Float));
+        break;
+    case TempString:
+        VerifDigest_Bytes(
+                pHash, SymbolEntry->SymWert.Contents.str.p_str,
+                SymbolEntry->SymWert.Contents.str.len);
+        break;
+    default:
+        break;
+    }
+}
+
+LargeWord VerifSymbolDigest(void) {
+    LargeWord Hash = (LargeWord)14695981039346656037ull;
+
+    if (FirstSymbol) {
+        IterTree(&(FirstSymbol->Tree), VerifDigest_Node, &Hash);
+    }
+    if (FirstLocSymbol) {
+        IterTree(&(FirstLocSymbol->Tree), VerifDigest_Node, &Hash);
+    }
+    return Hash;
+}
+#endif /* FLAMEWING_ASL_RELEASES_VERIF */
+
 void ResetSymbolDefines(void) {
     IterTree(&(FirstSymbol->Tree), ResetSymbolDefines_ResetNode, NULL);
     IterTree(&(FirstLocSymbol->Tree), ResetSymbolDefines_ResetNode, NULL);
